@@ -466,6 +466,11 @@ type ResetOptions struct {
 	// HardReset and KeepReset properly diff from the actual previous state
 	// rather than the new HEAD.
 	fromTree *object.Tree
+
+	// unstagedChecked is set by callers (Checkout, Pull) that have already
+	// run the MergeReset unstaged-changes check before touching HEAD, so
+	// that the worktree is not scanned twice.
+	unstagedChecked bool
 }
 
 // Validate validates the fields and sets the default values.
